@@ -1102,6 +1102,15 @@ class Expr:
             "remainder",
             "len",
             "dtype_index",
+            "atan2",
+            "copysign",
+            "nextafter",
+            "is_finite",
+            "is_inf",
+            "is_posinf",
+            "is_neginf",
+            "is_nan",
+            "is_negzero",
         }:
             return False
         elif self.kind in {"complex", "conjugate"}:
@@ -1134,6 +1143,11 @@ class Expr:
             "exp",
             "expm1",
             "exp2",
+            "sign",
+            "truncate",
+            "round",
+            "upcast",
+            "downcast",
         }:
             return self.operands[0].is_complex
         elif self.kind == "apply":
